@@ -15,7 +15,8 @@ import Verif.Model.AcmeChallenge
     op=types idt=ip|dns|pi|wu|wd|other raw=x..
     op=rev ip=x..
 
-  Output (validate): `st=<status> err=<errT> ret=ok|ise fp=0|1 az=<authz status> tgt=<target>`, `crash`, `unmodelled`,
+  Output (validate): `<status> err=<errT> ret=ok|ise fp=0|1 az=<authz status> tgt=<target>`;
+  (types) `offered=<types> val=<stored value> wild=0|1`; (rev) `arpa=<name>`, `crash`, `unmodelled`,
   `mismatch`, `nohash` (the oracle table lacks a digest the model needs), `parse-error`.
 -/
 open Verif Verif.AcmeChallenge
@@ -71,7 +72,7 @@ def targetS : Target → String
   | .tls a sni => "tls:" ++ xs a ++ ":" ++ xs sni
 
 def outcomeS (cmp : Bool) (o : Outcome) : String :=
-  s!"st={statusS o.status} err={errS o.err} ret={if o.ret = .ok then "ok" else "ise"} fp={if o.authzFp then 1 else 0} az={statusS (authzAfter o)} tgt={if cmp then targetS o.target else "?"}"
+  s!"{statusS o.status} err={errS o.err} ret={if o.ret = .ok then "ok" else "ise"} fp={if o.authzFp then 1 else 0} az={statusS (authzAfter o)} tgt={if cmp then targetS o.target else "?"}"
 
 /-- oracle table entry -/
 def hentry? (t : String) : Option (Str × Str × Str) :=
@@ -201,11 +202,11 @@ def eval (line : String) : Option String := do
     let t ← idt? (← lookup kv "idt")
     let raw ← str? (← lookup kv "raw")
     let (v, w, tys) := newAuthorization t raw
-    pure s!"val={xs v} wild={if w then 1 else 0} types={if tys.isEmpty then "-" else ",".intercalate (tys.map typS)}"
+    pure s!"offered={if tys.isEmpty then "-" else ",".intercalate (tys.map typS)} val={xs v} wild={if w then 1 else 0}"
   | "rev" =>
     let ip ← str? (← lookup kv "ip")
     match reverseAddr ip with
-    | .val a => pure (xs a)
+    | .val a => pure ("arpa=" ++ xs a)
     | .crash => pure "crash"
   | _ => none
 
